@@ -12,6 +12,7 @@ import (
 	"testing"
 	"time"
 
+	intoto "github.com/in-toto/in-toto-golang/in_toto"
 	"pgregory.net/rapid"
 
 	"verif/harness/hx"
@@ -45,7 +46,7 @@ func c14Gen(t *rapid.T) c14Case {
 	n := rapid.IntRange(0, 5).Draw(t, "nops")
 	budget := 9 << 20
 	for i := 0; i < n; i++ {
-		kind := rapid.SampledFrom([]string{"o", "e", "o", "e", "O", "E", "co", "ce", "sleep", "or", "er", "po", "pe", "ol", "el"}).Draw(t, "op")
+		kind := rapid.SampledFrom([]string{"o", "e", "o", "e", "O", "E", "co", "ce", "sleep", "or", "er", "po", "pe", "ol", "el", "ou", "eu", "ou"}).Draw(t, "op")
 		switch kind {
 		case "co", "ce":
 			c.Ops = append(c.Ops, kind)
@@ -95,24 +96,28 @@ func c14Expect(c c14Case) (stdout, stderr []byte, exit int, signalled bool, writ
 	for _, op := range c.Ops {
 		parts := strings.SplitN(op, ":", 2)
 		switch parts[0] {
-		case "o", "O", "or":
+		case "o", "O", "or", "ou":
 			n, _ := strconv.Atoi(parts[1])
 			if !outOpen {
 				writesAfterClose = writesAfterClose || n > 0
 				continue
 			}
-			if parts[0] == "or" {
+			if parts[0] == "ou" {
+				stdout = append(stdout, hx.EmitPatternUTF8(n)...)
+			} else if parts[0] == "or" {
 				stdout = append(stdout, hx.EmitPatternCR(n)...)
 			} else {
 				stdout = append(stdout, hx.EmitPattern(n, parts[0] == "O")...)
 			}
-		case "e", "E", "er":
+		case "e", "E", "er", "eu":
 			n, _ := strconv.Atoi(parts[1])
 			if !errOpen {
 				writesAfterClose = writesAfterClose || n > 0
 				continue
 			}
-			if parts[0] == "er" {
+			if parts[0] == "eu" {
+				stderr = append(stderr, hx.EmitPatternUTF8(n)...)
+			} else if parts[0] == "er" {
 				stderr = append(stderr, hx.EmitPatternCR(n)...)
 			} else {
 				stderr = append(stderr, hx.EmitPattern(n, parts[0] == "E")...)
@@ -377,6 +382,80 @@ func c14Run(c c14Case, r *hx.Rec) error {
 	return nil
 }
 
+// c14Insp: inspection commands go through the same machinery; an inspection without a command is no
+// inspection that passed.
+type c14Insp struct {
+	Runs    []string `json:"runs"` // per inspection: ok | nil | empty | missing | fail
+	RunDir  bool     `json:"run_dir"`
+	UseDSSE bool     `json:"use_dsse"`
+}
+
+func c14InspRun(c c14Insp, r *hx.Rec) error {
+	dir, err := os.MkdirTemp("", "c14i-")
+	if err != nil {
+		return nil
+	}
+	defer os.RemoveAll(dir)
+	work := filepath.Join(dir, "work")
+	_ = os.MkdirAll(work, 0o755)
+	_ = os.WriteFile(filepath.Join(work, "product.txt"), []byte("x\n"), 0o644)
+	old, _ := os.Getwd()
+	if err := os.Chdir(work); err != nil {
+		return nil
+	}
+	defer os.Chdir(old)
+	lay := intoto.Layout{Type: "layout"}
+	firstBad := -1
+	for i, kind := range c.Runs {
+		in := intoto.Inspection{Type: "inspection", SupplyChainItem: intoto.SupplyChainItem{Name: fmt.Sprintf("insp%d", i), ExpectedMaterials: [][]string{{"ALLOW", "*"}}, ExpectedProducts: [][]string{{"ALLOW", "*"}}}}
+		switch kind {
+		case "ok":
+			in.Run = []string{filepath.Join(hx.BinDir(), "emit"), "O:10", "x:0"}
+		case "nil":
+			in.Run = nil
+		case "empty":
+			in.Run = []string{}
+		case "missing":
+			in.Run = []string{filepath.Join(dir, "no-such-program")}
+		case "fail":
+			in.Run = []string{filepath.Join(hx.BinDir(), "emit"), "x:3"}
+		}
+		if kind != "ok" && firstBad < 0 {
+			firstBad = i
+		}
+		r.Label("inspection-command=%s", kind)
+		lay.Inspect = append(lay.Inspect, in)
+	}
+	runDir := ""
+	if c.RunDir {
+		runDir = work
+	}
+	var res map[string]intoto.Metadata
+	var rerr error
+	var pan any
+	func() {
+		defer func() { pan = recover() }()
+		res, rerr = intoto.RunInspections(lay, runDir, false, c.UseDSSE)
+	}()
+	if pan != nil {
+		return fmt.Errorf("RunInspections panicked with commands %v: %v", c.Runs, pan)
+	}
+	if firstBad >= 0 {
+		r.Nontrivial()
+		if rerr == nil {
+			return fmt.Errorf("RunInspections returned no error although the command of inspection %d is %q (commands %v); it returned %d link(s)", firstBad, c.Runs[firstBad], c.Runs, len(res))
+		}
+		return nil
+	}
+	if rerr != nil {
+		return fmt.Errorf("RunInspections failed although every inspection command runs and exits 0: %v", rerr)
+	}
+	if len(res) != len(c.Runs) {
+		return fmt.Errorf("RunInspections returned %d links for %d inspections", len(res), len(c.Runs))
+	}
+	return nil
+}
+
 func TestC14(t *testing.T) {
 	begin(t, "C14")
 	hx.Assume("a hang is reported only with a positive diagnosis (child alive, sleeping in a pipe write, no CPU progress between two /proc samples) after a 30 s deadline; a deadline without diagnosis is inconclusive (exit 2), never a violation")
@@ -386,5 +465,18 @@ func TestC14(t *testing.T) {
 		Rule:  "emit scripts: 0-5 segments on stdout/stderr with sizes from {0,1,4095,4096,65535,65536,65537,70000,131072,200000,1MiB,4MiB} or random, optional early close of a stream, sleeps, then exit 0..255 / self-signal / fall off the end; called through RunCommand and InTotoRun (by-products, both wrappers) in an isolated worker process, with and without a run directory, sometimes after a large-output command of the same process, sometimes with the caller's own stdout/stderr unwritable or closed; plus missing executable, empty argv, non-executable file, directory; non-trivial = >64KiB on one stream while both are open, or a broken command; distinct by (script, call path)",
 		Cases: hx.Pick(400, 30000),
 		Gen:   c14Gen, Run: c14Run,
+	}.Execute(t)
+	if t.Failed() {
+		return
+	}
+	hx.Check[c14Insp]{
+		Property: "C14", Part: "inspection-commands",
+		Rule:  "RunInspections on layouts of 1-3 inspections whose commands run and exit 0, are absent (null), empty, name a missing program or exit 3, with and without a run directory, both wrappers: an error iff some command is not a command that ran and exited 0; non-trivial = a case with such an inspection; distinct by case JSON",
+		Cases: hx.Pick(60, 3000),
+		Gen: func(t *rapid.T) c14Insp {
+			return c14Insp{Runs: rapid.SliceOfN(rapid.SampledFrom([]string{"ok", "ok", "ok", "nil", "empty", "missing", "fail"}), 1, 3).Draw(t, "runs"),
+				RunDir: rapid.Bool().Draw(t, "rundir"), UseDSSE: rapid.Bool().Draw(t, "dsse")}
+		},
+		Run: c14InspRun,
 	}.Execute(t)
 }
